@@ -296,6 +296,75 @@ def gen_config(rng, tree, nested=False, formatter=None):
     return {"root": root, "pkgs": pkgs, "tpl": tpl, "tree": tree}, hist
 
 
+# ------------------------------------------------------------------ templated values piped through functions
+RAW_STRUCTNAME = "{{.Mock}}{{.InterfaceName}}"          # the default `structname`
+
+
+def func_variants(p, pname):
+    """Configurations whose dir / filename / pkgname pipe template variables - in particular
+    .StructName, which itself comes from another templated parameter - through the documented
+    function library.  On the tree under test the function sees the TEXT of `structname` as
+    configured (the variables are bound before the fixpoint iteration starts); the second element
+    is what the model is told the value resolves to.  All interface names here are exported."""
+    return [
+        ("trimPrefix-noop", dict(file=("iface", "mock_Mock", ".go"), file_yaml='mock_{{.StructName | trimPrefix "Mock"}}.go')),
+        ("trimPrefix-raw", dict(file=("iface", "mk_", "_gen.go"), file_yaml='mk_{{.StructName | trimPrefix "{{.Mock}}"}}_gen.go')),
+        ("len", dict(file=("iface", "n%d_" % len(RAW_STRUCTNAME), ".go"), file_yaml='n{{len .StructName}}_{{.InterfaceName}}.go')),
+        ("contains-explicit", dict(structname="Fake{{.InterfaceName}}", file=("iface", "raw_", "_test.go"),
+                                   file_yaml='{{if contains "{{" .StructName}}raw{{else}}res{{end}}_{{.InterfaceName}}_test.go')),
+        ("replaceAll-explicit", dict(structname="{{.InterfaceName}}Mock", file=("iface", "x_", ".go"),
+                                     file_yaml='x_{{.StructName | replaceAll "Mock" ""}}.go')),
+        ("len-explicit", dict(structname="Stub{{.InterfaceName | firstUpper}}", file=("iface", "m%d_" % len("Stub{{.InterfaceName | firstUpper}}"), ".go"),
+                              file_yaml='m{{len .StructName}}_{{.InterfaceName}}.go')),
+        ("pkg-vars", dict(dir=("iface", "/%sm" % pname.upper()), dir_yaml="{{.InterfaceDir}}/{{.SrcPackageName | upper}}m",
+                          pkgname=("fixed", "mk" + pname.lower()), pkgname_yaml='mk{{.SrcPackageName | upper | lower}}',
+                          file=("fixed", "mock_%s.go" % pname.upper()), file_yaml='mock_{{.SrcPackageName | replaceAll "f" "F" | upper}}.go')),
+        ("dir-relative-clean", dict(dir=("iface", ""), dir_yaml='{{.InterfaceDirRelative | clean}}',
+                                    file=("iface", "zz_Mock", ".go"), file_yaml='zz_{{.StructName | firstLower}}.go')),
+    ]
+
+
+FAILING_FUNCS = ['{{.StructName | lower}}.go', '{{.StructName | snakecase}}.go', '{{.StructName | replace "Mock" "Fake" 1}}.go',
+                 'u_{{.StructName | upper}}.go']
+
+
+def gen_config_funcs(rng, tree):
+    root = cfg(force=True)
+    pkgs, hist = [], {"function_variants": {}}
+    for tp in tree:
+        p = tp["path"]
+        if not p.startswith("f"):
+            continue
+        name, v = rng.choice(func_variants(p, tp["name"]))
+        hist["function_variants"][name] = hist["function_variants"].get(name, 0) + 1
+        c = cfg(**v)
+        decls = [d["name"] for f in tp["files"] for d in f["decls"]]
+        ifs = []
+        if rng.random() < 0.5:
+            c["all"] = True
+        else:
+            c["all"] = False
+            for n in rng.sample(decls, rng.randint(1, len(decls))):
+                ifs.append({"name": n, "cfg": None if rng.random() < 0.5 else cfg(), "entries": []})
+        if name == "pkg-vars" and rng.random() < 0.5:
+            c["tmpl"] = "matryer"
+            c["data"] = {"skip-ensure": True}
+        pkgs.append({"path": p, "cfg": c, "ifaces": ifs})
+    return {"root": root, "pkgs": pkgs, "tpl": {}, "tree": tree}, hist
+
+
+def gen_config_failing(rng, tree, spelling):
+    """One listed interface whose filename cannot be resolved on the tree under test (the function
+    mangles the template text): every run must fail.  Judged by the oracle only."""
+    small = [tp for tp in tree if tp["path"] in ("f00", "f01")]
+    iface = small[0]["files"][0]["decls"][0]["name"]
+    pk = [{"path": "f00", "cfg": cfg(all=False, file=("fixed", "unresolvable.go"), file_yaml=spelling),
+           "ifaces": [{"name": iface, "cfg": None, "entries": []}]},
+          {"path": "f01", "cfg": cfg(all=True, file=("fixed", "zz_mock.go")), "ifaces": []}]
+    return {"root": cfg(force=True), "pkgs": pk, "tpl": {}, "tree": small, "oracle_only": True}
+
+
+
 def corpus_variant_b(tree):
     """Exit status depends on the map order with the pinned cache key: f00 does not require a
     schema (its template-schema is permissive), f01 requires its own schema and violates it."""
@@ -326,6 +395,10 @@ def yaml_of_cfg(c, extra=None):
         o["filename"] = f[1] if f[0] == "fixed" else (f[1] + ("{{.InterfaceName}}" if f[0] == "iface" else "{{.SrcPackageName}}") + f[2])
     if c["pkgname"] is not None:
         o["pkgname"] = "{{.SrcPackageName}}" if c["pkgname"][0] == "src" else c["pkgname"][1]
+    # spellings that go through the template function library; the model gets the resolved value
+    for key, yk in (("dir_yaml", "dir"), ("file_yaml", "filename"), ("pkgname_yaml", "pkgname")):
+        if c.get(key):
+            o[yk] = c[key]
     if c["tmpl"] is not None: o["template"] = c["tmpl"]
     if c["schema"] is not None: o["template-schema"] = c["schema"]
     if c["require"] is not None: o["require-template-schema-exists"] = c["require"]
@@ -495,7 +568,7 @@ def exercise(ctx, case, idx, k, reruns=2):
         re.append({"exit": ex, "hash": h, "new": sorted(set(files) - set(prev_files)),
                    "changed": sorted(f for f in files if f in prev_files and files[f] != prev_files[f]), "log": log})
         prev_files = files
-    res = {"runs": runs, "reruns": re, "dirs0": sorted(pkg_dirs(pristine)), "dirs1": sorted(dirs1)}
+    res = {"runs": runs, "reruns": re, "dirs0": sorted(pkg_dirs(pristine)), "dirs1": sorted(dirs1), "must_fail": bool(case.get("oracle_only"))}
     shutil.rmtree(base, ignore_errors=True)
     return res
 
@@ -510,6 +583,8 @@ def oracle(res):
     if len(exits) > 1:
         errs.append("exit status differs between runs of the same inputs: %s" % [r["exit"] for r in runs])
         return errs
+    if res.get("must_fail") and exits == [0]:
+        errs.append("the configuration cannot be resolved (a function mangles the text of a templated parameter) but the runs exit 0")
     if exits == [0]:
         hs = sorted({r["hash"] for r in runs})
         if len(hs) > 1:
@@ -572,7 +647,7 @@ def check(ctx, only=None):
     fl_mode = C12.calibrate(ctx)
     builtins, outside = C12.load_builtins(ctx)
     k = 40 if ctx.thorough() else 6
-    ncfg = 12 if ctx.thorough() else 6
+    ncfg = 12 if ctx.thorough() else 5
     nested = os.environ.get("C06_NESTED_RECURSIVE") == "1"
     hists = []
     if only is not None:
@@ -585,18 +660,34 @@ def check(ctx, only=None):
             c, h = gen_config(ctx.rng, tree, nested=nested and j % 2 == 1, formatter=[None, "noop", "gofmt", None][j % 4])
             cases.append(c)
             hists.append(h)
+        # templated values piped through functions: one configuration the model also predicts, and
+        # small ones that must fail in every run (the flip probability per run can be low: more runs)
+        special = {}
+        c, h = gen_config_funcs(ctx.rng, gen_tree(ctx.rng))
+        special[len(cases)] = max(k, 8)
+        cases.append(c)
+        hists.append(h)
+        for sp in (FAILING_FUNCS if ctx.thorough() else ctx.rng.sample(FAILING_FUNCS, 2)):
+            special[len(cases)] = max(k, 12)
+            cases.append(gen_config_failing(ctx.rng, tree0, sp))
     ks = [max(k, 10) if (only is None and j == 0) else k for j in range(len(cases))]
+    if only is None:
+        for j, kk in special.items():
+            ks[j] = kk
     results = pmap(lambda j: exercise(ctx, cases[j], j, ks[j]), range(len(cases)), workers=min(JOBS, 6))
     oerr = [oracle(r) for r in results]
     bad, errs, outside_guard = [], [], []
     if fl_mode is None or outside:
         errs.append("calibration failed or built-in schema outside the subset: %s %s" % (fl_mode, outside))
     else:
-        terms = [case_term(c, builtins, fl_mode, r) for c, r in zip(cases, results)]
+        modelled = [j for j, c in enumerate(cases) if not c.get("oracle_only")]
+        terms = [case_term(cases[j], builtins, fl_mode, results[j]) for j in modelled]
         bad, errs = coq_mismatches(ctx, "Cfg.Schema Gen.Alloc Cfg.Order Harness.C06", terms, shard=4, extra_import="From Coq Require Import ZArith.")
         outside_guard, e2 = coq_mismatches(ctx, "Cfg.Schema Gen.Alloc Cfg.Order Harness.C06", terms, shard=4,
                                            extra_import="From Coq Require Import ZArith.", check="outside_guard")
         errs += e2
+        bad = [modelled[i] for i in bad]
+        outside_guard = [modelled[i] for i in outside_guard]
     failing = [i for i, e in enumerate(oerr) if e]
     for i in failing[:2]:
         small = shrink(ctx, cases[i], ks[i]) if only is None else cases[i]
@@ -634,6 +725,7 @@ def check(ctx, only=None):
                        extra={"input_histogram": {"per_configuration": sizes, "generator": hists},
                               "k_runs": k, "configurations": len(cases), "model_mismatches": len(bad), "oracle_failures": len(failing),
                               "outside_guard": len(outside_guard), "nested_recursive_switch": nested,
+                              "oracle_only_configurations": sum(1 for c in cases if c.get("oracle_only")),
                               "file_level_template_data_comes_from": fl_mode,
                               "not_modelled": "rendered bytes (compared by hash only), struct names, path cleaning, config templating, exclude-subpkg-regex, qualifier allocation"},
                        assumptions=["Go's map iteration randomisation is the only source of order variation between processes; k independent processes sample it",
